@@ -364,6 +364,7 @@ theorem OutInv_local (F : Flags) (o : Obs) (x : Act) (ev : Ev) (y : Act) (eff : 
   | precondFail hp hc => rfl
   | upToDate hp hc => rfl
   | promptFail hp hc => rfl
+  | waitCycle k hp hr hk hcyc => rfl
   | _ => exact hI
 
 theorem OutInv_sound (P : Program) (F : Flags) (n : Nat) (tr : List Label) (c : Config)
